@@ -13,7 +13,12 @@
 //! Oracle: never a panic; whenever the eager read_record_buf succeeds on the same bytes, the lazy path
 //! succeeds with the same content (a vector that is one missing entry = the missing value; before
 //! VCF 4.4 the first allele's phasing is not part of the content).  Failures are tagged by the input
-//! class, found by an independent walk over the record bytes.
+//! class, found by an independent walk over the record bytes.  The seven classes of `input_class`
+//! (lazy-empty-allele, lazy-samples-block-trailing-bytes, lazy-gt-zero-length,
+//! lazy-array-percent-escape, lazy-char-array-piece-not-one-char, lazy-string-array-empty,
+//! lazy-info-character-multibyte) were real differences and are repaired in /repo (0b0f2ab, 0ba8d0b,
+//! a1ba5e6, e4c926c, a82186d); the tags stay so that a recurrence is reported under its name, as a
+//! new failure.
 use super::*;
 
 fn ty_letter(t: Ty) -> &'static str {
